@@ -158,7 +158,7 @@ class RebindableNode(Node):
                 node = node.get_left()
             depth -= 1
             if node.is_leaf():
-                if not expand:
+                if not expand or node.merkle_root() != zero_hashes[depth]:
                     raise NavigationError
                 child = zero_node(depth - 1)
                 node = self.combine(child, child)
@@ -288,6 +288,8 @@ class RootNode(Node):
         if target == 1:
             return identity
         if expand:
+            if self._root != zero_hashes[target.bit_length() - 1]:
+                raise NavigationError
             child = zero_node(target.bit_length() - 2)
             return PairNode(child, child).setter(target, expand=True)
         else:
